@@ -119,39 +119,40 @@ def Shape.translate (t : Pt) : Shape → Shape
   | .prim s => .prim (s.translate t)
   | .group ss => .group (ss.map (Prim.translate t))
 
-/-! ### Exact closed-set intersection tests (executable reference for `intersects`; in the theorems of the
-    index `intersects` is a parameter). -/
+/-! ### Exact closed-set intersection predicates (the exact logic behind GEOS's `intersects` / `dwithin` on
+    polygons, segments and discs; division free) -/
 
-def sgn (r : Rat) : Int := if 0 < r then 1 else if r < 0 then -1 else 0
-
-/-- Closed segments `ab` and `cd` share a point. -/
-def segInt (a b c d : Pt) : Bool :=
-  (decide (sgn (cross a b c) * sgn (cross a b d) < 0) && decide (sgn (cross c d a) * sgn (cross c d b) < 0))
+/-- Closed segments `ab` and `cd` share a point: they cross properly (the end points of each lie strictly on
+    different sides of the other), or an end point of one lies on the other. -/
+def segMeet (a b c d : Pt) : Bool :=
+  (decide (cross a b c * cross a b d < 0) && decide (cross c d a * cross c d b < 0))
     || onSeg a b c || onSeg a b d || onSeg c d a || onSeg c d b
 
-/-- Squared distance from `p` to the closed segment `ab`. -/
-def segDist2 (a b p : Pt) : Rat :=
+/-- The squared distance from `p` to the closed segment `ab` is at most `r2`: with `t = (p - a)·(b - a)` and
+    `n = |b - a|²`, the nearest point is `a` (`t ≤ 0`), `b` (`n ≤ t`) or the foot of the perpendicular, whose squared
+    distance is `cross² / n`. -/
+def segNear (a b p : Pt) (r2 : Rat) : Bool :=
   let dx := b.x - a.x
   let dy := b.y - a.y
   let n := dx * dx + dy * dy
-  if n = 0 then d2 p a else
-  let t := ((p.x - a.x) * dx + (p.y - a.y) * dy) / n
-  let t := max 0 (min 1 t)
-  d2 p ⟨a.x + t * dx, a.y + t * dy⟩
+  let t := (p.x - a.x) * dx + (p.y - a.y) * dy
+  if t ≤ 0 then decide (d2 p a ≤ r2)
+  else if n ≤ t then decide (d2 p b ≤ r2)
+  else decide (cross a b p * cross a b p ≤ r2 * n)
 
-/-- Two closed simple polygons share a point: boundaries meet, or one contains a vertex of the other. -/
-def ringsIntersect (A B : List Pt) : Bool :=
-  (edges A).any (fun e => (edges B).any (fun f => segInt e.1 e.2 f.1 f.2))
-    || (match A with | [] => false | a :: _ => inRing B a)
-    || (match B with | [] => false | b :: _ => inRing A b)
+/-- Two closed polygons (simple rings) share a point: two edges meet, or a vertex of one lies in the other. -/
+def ringsMeet (A B : List Pt) : Bool :=
+  (edges A).any (fun e => (edges B).any (fun f => segMeet e.1 e.2 f.1 f.2))
+    || A.any (fun a => inRing B a) || B.any (fun b => inRing A b)
 
-/-- The closed disc meets the closed simple polygon. -/
-def discIntersectsRing (ctr : Pt) (r : Rat) (A : List Pt) : Bool :=
-  decide (0 ≤ r) && (inRing A ctr || (edges A).any (fun e => decide (segDist2 e.1 e.2 ctr ≤ r * r)))
+/-- The closed disc of radius `r` around `ctr` meets the closed polygon: the centre lies in it, or an edge comes
+    within `r` of the centre. -/
+def discMeetsRing (ctr : Pt) (r : Rat) (A : List Pt) : Bool :=
+  decide (0 ≤ r) && (inRing A ctr || (edges A).any (fun e => segNear e.1 e.2 ctr (r * r)))
 
 /-- Distance of `p` to the polygon is at most `tol` (`dwithin`). -/
 def withinTol (tol : Rat) (A : List Pt) (p : Pt) : Bool :=
-  inRing A p || (edges A).any (fun e => decide (segDist2 e.1 e.2 p ≤ tol * tol))
+  inRing A p || (edges A).any (fun e => segNear e.1 e.2 p (tol * tol))
 
 /-- `Circle.__init__` (shape.py:240-242): `Point(center).buffer(radius / 2)` — the exported geometry of a circle is
     (GEOS's 64-gon inscribed in) the disc of HALF the radius.  Known finding C06/shapely_object/wrong/circ: the
@@ -172,8 +173,8 @@ def Prim.denotes : Prim → Pt → Bool
 
 /-- Reference `polygon.intersects(shape.shapely_object)`: the polygon ring meets the exported geometry. -/
 def ringMeets (A : List Pt) : Prim → Bool
-  | .rect l w ctr c s => ringsIntersect A (rectVerts l w ctr c s)
-  | .circ r ctr => discIntersectsRing ctr (exportedRadius r) A
-  | .poly vs => ringsIntersect A vs
+  | .rect l w ctr c s => ringsMeet A (rectVerts l w ctr c s)
+  | .circ r ctr => discMeetsRing ctr (exportedRadius r) A
+  | .poly vs => ringsMeet A vs
 
 end CR.Geom
